@@ -7,7 +7,7 @@ edge is run in 'yield' mode (full comparison incl. first-occurrence back referen
 """
 import itertools
 
-from mc import engine, readermachine
+from mc import engine, harness, readermachine
 from mc.core import Part
 from mc.models import rowmodel
 
@@ -99,6 +99,17 @@ def judge(case, part):
         partial = rowmodel.predict(decls, config["checks"], header, None, raw[: info["row"]])
         if (raised.get("close") is None) != (partial["close"] is None):
             part.fail(tag % "raise-mode-end-verdict-over-rows-seen", case, partial["close"], raised.get("close"))
+    # a reader constructed first, then another complete read of the same data on the same CID, then the first reader
+    # is consumed: its verdicts must still be those of its own data set alone
+    m = harness.modules()
+    cid4 = readermachine.make_cid(config, decls)
+    source4, basename4 = readermachine.store(config, decls, table)
+    early = m["validio"].Reader(cid4, source4, on_error="yield")
+    other_source, _ = readermachine.store(config, decls, table, name="other")
+    readermachine.run_reader(cid4, other_source, "continue")
+    late = readermachine.run_reader(cid4, source4, "yield", reader=early)
+    part.transitions += 2
+    readermachine.compare_yield(prediction, late, basename4, part, tag.replace("%s", "reader-constructed-before-another-read:%s"), case, config["fields"])
     model_run = prediction["run"]
     return (observation["snapshot"], (model_run.row_number, model_run.accepted, model_run.rejected, model_run.check_state()))
 
